@@ -1654,8 +1654,8 @@ fn new_temp_inode(named: bool) -> u8 {
     i
 }
 
-/// `Path::parent` for the paths of the KFS universe (absolute, no empty / "." / ".." components, no
-/// trailing separator: exactly the paths `classify` accepts; anything else stops the run as
+/// `Path::parent` for absolute paths of at most 40 bytes whose components are names (repeated and
+/// trailing separators are handled as std does; "." / ".." components stop the run as
 /// inconclusive).  std's implementation parses components backwards with a state machine whose
 /// symbolic execution dominated every harness that reaches `CacheDir::base_dir` or
 /// `dst.parent()` (measured with strace on the running cbmc: >90% of the messages came from
@@ -1665,19 +1665,31 @@ pub fn s_path_parent(p: &Path) -> Option<&Path> {
     let b = p.as_os_str().as_bytes();
     let n = b.len();
     assert!(n >= 1 && n <= 40 && b[0] == b'/', "KV-MODEL: Path::parent model applies to absolute paths of at most 40 bytes");
-    if n == 1 {
-        return None;
+    // trailing separators do not make a component
+    let mut end = n;
+    while end > 1 && b[end - 1] == b'/' {
+        end -= 1;
     }
-    assert!(b[n - 1] != b'/', "KV-MODEL: Path::parent model applies to paths without a trailing separator");
-    let mut i = n - 1;
+    if end == 1 {
+        return None; // "/" (or "//", ...)
+    }
+    let mut i = end - 1;
     while i > 0 && b[i] != b'/' {
         i -= 1;
     }
-    // the last component is neither "." nor ".." and the separator is single
-    assert!(!(n - i == 2 && b[i + 1] == b'.') && !(n - i == 3 && b[i + 1] == b'.' && b[i + 2] == b'.'),
-            "KV-MODEL: Path::parent model applies to normalised paths");
-    assert!(i == 0 || b[i - 1] != b'/', "KV-MODEL: Path::parent model applies to normalised paths");
-    let cut = if i == 0 { 1 } else { i };
+    // the last component is b[i+1..end]: "." is dropped by std and ".." is kept - both outside this model
+    assert!(!(end - i == 2 && b[i + 1] == b'.') && !(end - i == 3 && b[i + 1] == b'.' && b[i + 2] == b'.'),
+            "KV-MODEL: Path::parent model applies to paths whose last component is a name");
+    // separators in front of it (one or several) do not belong to the parent
+    let mut cut = i;
+    while cut > 1 && b[cut - 1] == b'/' {
+        cut -= 1;
+    }
+    if cut == 0 {
+        cut = 1;
+    }
+    // a "." component just before would be dropped by std as well: outside this model
+    assert!(!(cut >= 2 && b[cut - 1] == b'.' && b[cut - 2] == b'/'), "KV-MODEL: Path::parent model applies to paths without '.' components");
     Some(Path::new(std::ffi::OsStr::from_bytes(&b[..cut])))
 }
 
